@@ -72,6 +72,9 @@ type Unit struct {
 	catDone    bool
 	catTerms   []Term
 	closedChans map[string]bool
+	// cell counter at the head of each loop currently being cut by invariant: a local channel with a smaller
+	// id was made before that loop and may still hold a value sent in an earlier iteration
+	loopMarks []int
 	initArrays map[string]Term
 	allocTypes map[int]types.Type
 	allocPC    map[int]Term
@@ -1415,6 +1418,8 @@ func (u *Unit) execLoop(fr *Frame, li *loopInfo, ins []edgeState, deliver func(f
 	}
 	u.assumeInvariants(fr, st, spec, li)
 	headSnapshot := st.clone()
+	u.loopMarks = append(u.loopMarks, u.cells)
+	defer func() { u.loopMarks = u.loopMarks[:len(u.loopMarks)-1] }()
 	u.execBlockAsHead(fr, li, st, out, exits, func(backs []edgeState) {
 		for _, bk := range backs {
 			// evaluate the phi values along the back edge
